@@ -12,6 +12,14 @@ sys.path.insert(0, "/verif")
 from vlib import core
 from checks import registry
 for pkg in registry.packages():
-    core.cargo_build(pkg[0], **(pkg[1] if len(pkg) > 1 else {}))
-    print("built", pkg[0], flush=True)
+    # forms: (name,) | (name, "feat1,feat2") | (name, (feat, ...), target_sub)
+    feats = None
+    if len(pkg) > 1 and pkg[1]:
+        feats = pkg[1].split(",") if isinstance(pkg[1], str) else list(pkg[1])
+    sub = pkg[2] if len(pkg) > 2 else None
+    try:
+        core.cargo_build(pkg[0], features=feats, target_sub=sub)
+        print("built", pkg, flush=True)
+    except core.HarnessBuildFailed as e:
+        print("FAILED to build", pkg, e.log[-800:], flush=True)
 PY
